@@ -67,12 +67,108 @@ func writes(dir string, patterns []string) {
 			v, ok := obj.(*types.Var)
 			return ok && v.Parent() == p.Types.Scope()
 		}
+		// named types of which the package holds a package-level value (directly, or as element of a package-level slice / array /
+		// map / pointer): a method of such a type that writes THROUGH its receiver (any write for a pointer receiver; a write to
+		// a map or slice element or through a pointer field for a value receiver) writes shared state when called on that value
+		shared := map[*types.TypeName]bool{}
+		var addShared func(t types.Type, depth int)
+		addShared = func(t types.Type, depth int) {
+			if t == nil || depth > 4 {
+				return
+			}
+			switch x := t.(type) {
+			case *types.Named:
+				if x.Obj() != nil && x.Obj().Pkg() == p.Types {
+					if shared[x.Obj()] {
+						return
+					}
+					shared[x.Obj()] = true
+				}
+				addShared(x.Underlying(), depth+1)
+			case *types.Pointer:
+				addShared(x.Elem(), depth+1)
+			case *types.Slice:
+				addShared(x.Elem(), depth+1)
+			case *types.Array:
+				addShared(x.Elem(), depth+1)
+			case *types.Map:
+				addShared(x.Elem(), depth+1)
+			case *types.Struct:
+				for i := 0; i < x.NumFields(); i++ {
+					addShared(x.Field(i).Type(), depth+1)
+				}
+			}
+		}
+		for _, n := range p.Types.Scope().Names() {
+			if v, ok := p.Types.Scope().Lookup(n).(*types.Var); ok {
+				addShared(v.Type(), 0)
+			}
+		}
 		for _, f := range p.Syntax {
 			fname, _ := filepath.Rel(dir, p.Fset.Position(f.Pos()).Filename)
 			for _, d := range f.Decls {
 				fd, ok := d.(*ast.FuncDecl)
 				if !ok || fd.Body == nil || (fd.Name.Name == "init" && fd.Recv == nil) || fd.Name.Name == "VerifDumpTables" {
 					continue
+				}
+				// receiver of a method of a shared type
+				var recvObj types.Object
+				recvPtr := false
+				if fd.Recv != nil && len(fd.Recv.List) > 0 && len(fd.Recv.List[0].Names) > 0 {
+					ro := p.TypesInfo.ObjectOf(fd.Recv.List[0].Names[0])
+					if ro != nil {
+						t := ro.Type()
+						if pt, ok := t.(*types.Pointer); ok {
+							t = pt.Elem()
+							recvPtr = true
+						}
+						if nt, ok := t.(*types.Named); ok && shared[nt.Obj()] {
+							recvObj = ro
+						}
+					}
+				}
+				throughRecv := func(e ast.Expr) bool {
+					if recvObj == nil {
+						return false
+					}
+					id := root(e)
+					if id == nil || p.TypesInfo.ObjectOf(id) != recvObj {
+						return false
+					}
+					if _, plain := e.(*ast.Ident); plain {
+						return false // re-binding the receiver variable itself
+					}
+					if recvPtr {
+						return true
+					}
+					// value receiver: only writes that leave the copy
+					for {
+						switch x := e.(type) {
+						case *ast.IndexExpr:
+							if t := p.TypesInfo.TypeOf(x.X); t != nil {
+								switch t.Underlying().(type) {
+								case *types.Map, *types.Slice, *types.Pointer:
+									return true
+								}
+							}
+							e = x.X
+						case *ast.StarExpr:
+							return true
+						case *ast.SelectorExpr:
+							if t := p.TypesInfo.TypeOf(x.X); t != nil {
+								if _, ok := t.Underlying().(*types.Pointer); ok {
+									return true
+								}
+							}
+							e = x.X
+						case *ast.ParenExpr:
+							e = x.X
+						case *ast.SliceExpr:
+							e = x.X
+						default:
+							return false
+						}
+					}
 				}
 				ast.Inspect(fd.Body, func(n ast.Node) bool {
 					switch x := n.(type) {
@@ -81,15 +177,24 @@ func writes(dir string, patterns []string) {
 							return true
 						}
 						for _, l := range x.Lhs {
+							if throughRecv(l) {
+								out = append(out, fmt.Sprintf("write %s %s %s (through the receiver of a type with a package-level value)", fname, fd.Name.Name, exprString(p.Fset, l)))
+							}
 							if isPkgVar(l) {
 								out = append(out, fmt.Sprintf("write %s %s %s", fname, fd.Name.Name, exprString(p.Fset, l)))
 							}
 						}
 					case *ast.IncDecStmt:
+						if throughRecv(x.X) {
+							out = append(out, fmt.Sprintf("write %s %s %s (through the receiver of a type with a package-level value)", fname, fd.Name.Name, exprString(p.Fset, x.X)))
+						}
 						if isPkgVar(x.X) {
 							out = append(out, fmt.Sprintf("write %s %s %s", fname, fd.Name.Name, exprString(p.Fset, x.X)))
 						}
 					case *ast.CallExpr:
+						if id, ok := x.Fun.(*ast.Ident); ok && id.Name == "delete" && len(x.Args) > 0 && throughRecv(x.Args[0]) {
+							out = append(out, fmt.Sprintf("write %s %s delete(%s) (through the receiver)", fname, fd.Name.Name, exprString(p.Fset, x.Args[0])))
+						}
 						if id, ok := x.Fun.(*ast.Ident); ok && id.Name == "delete" && len(x.Args) > 0 && isPkgVar(x.Args[0]) {
 							out = append(out, fmt.Sprintf("write %s %s delete(%s)", fname, fd.Name.Name, exprString(p.Fset, x.Args[0])))
 						}
